@@ -2,3 +2,9 @@
 import NdonnxVerif.Model.Basic
 import NdonnxVerif.Model.Index
 import NdonnxVerif.Props.C08
+import NdonnxVerif.Model.Dtype
+import NdonnxVerif.Model.FnLaw
+import NdonnxVerif.Props.C03
+import NdonnxVerif.Driver.Dtype
+import NdonnxVerif.Model.GenSupport
+import NdonnxVerif.Props.C17
